@@ -119,8 +119,8 @@ def run (c : Case) : Verdict := Id.run do
   let some us := ratsOf dbl (c.raw "u") | return { prop := some "u not finite on a structurally nonsingular input", tags := tags }
   let some vs := ratsOf dbl (c.raw "v") | return { prop := some "v not finite on a structurally nonsingular input", tags := tags }
   if us.size ≠ n ∨ vs.size ≠ n then return { prop := some "u/v length", tags := tags }
-  let some eu := us.mapM expQ | return { prop := some "a row dual exceeds 4096 in magnitude", tags := tags }
-  let some ev := vs.mapM expQ | return { prop := some "a column dual exceeds 4096 in magnitude", tags := tags }
+  let some eu := us.mapM expQ | return { prop := some "a row dual exceeds 131072 in magnitude", tags := tags }
+  let some ev := vs.mapM expQ | return { prop := some "a column dual exceeds 131072 in magnitude", tags := tags }
   let r : Nat → Rat := fun i => eu.getD i 0
   let cc : Nat → Rat := fun j => ev.getD j 0
   -- per-entry slack: the duals are logarithms evaluated in floating point
